@@ -20,6 +20,10 @@ const NAME_PROBES: [&str; 12] = ["a", "b", "as", "bs", "ka", "kb", "kas", "kbs",
 /// are reached through the plural and prefix rules.
 const ALIAS_NAMES: [&str; 5] = ["kb", "kc", "bb", "cs", "kbs"];
 const ALIAS_TARGETS: [&str; 12] = ["kb", "kbs", "kc", "kcs", "b", "bs", "c", "cs", "bb", "bbs", "kkb", "kcss"];
+/// Two quantity definitions after `b !`, `k- 1000`, `a 3 b^2`: the same or different dimensionalities,
+/// under names that also read as a unit, its plural or a prefixed unit.
+const QNAMES: [&str; 8] = ["q", "r", "as", "bs", "a", "kb", "qs", "kas"];
+const QDIMS: [&str; 4] = ["b", "b^2", "b^-1", "q"];
 const DATESOUP: [&str; 17] = ["[", "]", "'", "-", ":", " ", "year", "day", "sec", "offset", "T", "#", "\t", "\u{a0}", "\u{3000}", "\r", "\n"];
 
 #[derive(Clone)]
@@ -324,6 +328,7 @@ impl C13 {
         let at = (ALIAS_NAMES.len() * ALIAS_TARGETS.len()) as u64;
         fams.add("alias graphs through plurals and prefixes: 1 to 3 definitions", vec![at + at * at + if thorough { at * at * at } else { 0 }]);
         fams.add("very long runs of blanks and line continuations", vec![4]);
+        fams.add("pairs of quantity definitions: name x dimensionality, twice", vec![QNAMES.len() as u64, QDIMS.len() as u64, QNAMES.len() as u64, QDIMS.len() as u64]);
         C13 { fams, files, devs, soup_len, cyc_lens, json_paths: paths, json_cuts, needed, tier: tier.to_string(), name_lens: if thorough { 5 } else { 4 } }
     }
 
@@ -521,7 +526,7 @@ impl Space for C13 {
         Meta {
             id: "C13",
             level: "exploration",
-            rule: "deviation-bounded: 0 deviations (shipped files) then every single deviation {delete line, duplicate line, swap with next, delete each token, replace each number by 0 / -1} of definitions.units (quick: every 40th line), currency.units and datepatterns.txt; every definitions file of <= 4 (thorough 5) tokens over a 29-token alphabet (incl. the numeral spellings `3.` and `.`), loaded into an empty context and into one holding `m !meter`; dependency cycles of length 1..12, 100, 1000, 2000, 5000 (thorough 10000) through 11 namespace shapes (units, prefixes, quantities, substance property, prefix/plural readings, reverse order, bare aliases, bare aliases that also read as prefix + base unit, prefix<->unit cycles closed by a prefix used as a prefix in both visiting orders, prefixes defined by names carrying the next prefix); forward/backward alias chains of 1000/3000 (thorough also 10000); 31 malformed substance/directive, base-unit long-name, zero-prefix and quantity-power-boundary files (self-naming `a !a`, mutual `a !b; b !a`, long names shadowed by units, prefixes and quantities); substance property values that are zero in 10 representations (exact, float zero from `0^.5`, float underflow `1e-300^1.5`, ...) x 3 positions, which must be reported, plus non-zero controls (`1e-400`), which must load; exponent boundary values (+-2^31, +-2^32, +-2^63, 1e30) on bases 0/1/-1 in prefix, unit, unit-power, substance and quantity definitions; name soups: every file of <= 4 (thorough 5) tokens over a 15-token alphabet of names, plurals, prefixed spellings and `!long` names, after which all 12 names are queried in 3 forms and canonicalized/looked up through the API; alias graphs: 1..2 (thorough 3) definitions `X Y` over 5 names x 12 targets reached through plural and prefix rules; four files with runs of 150000..1000000 blanks/tabs/continuations; currency JSON truncated at every (quick: every 9th) byte, every field deleted or type-replaced (8 edits); date-pattern soups of 4 (thorough 5) tokens over a 17-token alphabet that has every kind of white space (space, tab, NBSP, U+3000, CR, LF). Oracle: the load returns without panic/abort/stack overflow within the limit; a problem is reported when a deleted single-line definition was needed by another and has no other reading, and for every cycle; afterwards `1 + 1` answers 2 and queries for loaded/missing names do not panic. Non-trivial = all; distinct by the text loaded".into(),
+            rule: "deviation-bounded: 0 deviations (shipped files) then every single deviation {delete line, duplicate line, swap with next, delete each token, replace each number by 0 / -1} of definitions.units (quick: every 40th line), currency.units and datepatterns.txt; every definitions file of <= 4 (thorough 5) tokens over a 29-token alphabet (incl. the numeral spellings `3.` and `.`), loaded into an empty context and into one holding `m !meter`; dependency cycles of length 1..12, 100, 1000, 2000, 5000 (thorough 10000) through 11 namespace shapes (units, prefixes, quantities, substance property, prefix/plural readings, reverse order, bare aliases, bare aliases that also read as prefix + base unit, prefix<->unit cycles closed by a prefix used as a prefix in both visiting orders, prefixes defined by names carrying the next prefix); forward/backward alias chains of 1000/3000 (thorough also 10000); 31 malformed substance/directive, base-unit long-name, zero-prefix and quantity-power-boundary files (self-naming `a !a`, mutual `a !b; b !a`, long names shadowed by units, prefixes and quantities); substance property values that are zero in 10 representations (exact, float zero from `0^.5`, float underflow `1e-300^1.5`, ...) x 3 positions, which must be reported, plus non-zero controls (`1e-400`), which must load; exponent boundary values (+-2^31, +-2^32, +-2^63, 1e30) on bases 0/1/-1 in prefix, unit, unit-power, substance and quantity definitions; name soups: every file of <= 4 (thorough 5) tokens over a 15-token alphabet of names, plurals, prefixed spellings and `!long` names, after which all 12 names are queried in 3 forms and canonicalized/looked up through the API; alias graphs: 1..2 (thorough 3) definitions `X Y` over 5 names x 12 targets reached through plural and prefix rules; four files with runs of 150000..1000000 blanks/tabs/continuations; every pair of quantity definitions over 8 names (some of which also read as a unit, a plural or a prefixed unit) x 4 dimensionalities, loaded after a base unit, a prefix and a unit (the same dimensionality twice is a reported conflict, after which every name must still answer); currency JSON truncated at every (quick: every 9th) byte, every field deleted or type-replaced (8 edits); date-pattern soups of 4 (thorough 5) tokens over a 17-token alphabet that has every kind of white space (space, tab, NBSP, U+3000, CR, LF). Oracle: the load returns without panic/abort/stack overflow within the limit; a problem is reported when a deleted single-line definition was needed by another and has no other reading, and for every cycle; afterwards `1 + 1` answers 2 and queries for loaded/missing names do not panic. Non-trivial = all; distinct by the text loaded".into(),
             assumptions: vec![
                 "expression nesting depth beyond a few hundred is outside the statement's quantifier (chat-size / realistic files)".into(),
                 "the reporting clause is judged only where the harness can prove the deleted definition has no other reading".into(),
@@ -560,6 +565,8 @@ impl Space for C13 {
             format!("name soup: {:?}", name_soup_text(d[0], (f - ns - 8) as u64))
         } else if f == ns + 9 + self.name_lens {
             format!("alias graph: {:?}", alias_graph_text(d[0]))
+        } else if f == ns + 11 + self.name_lens {
+            format!("quantity pair: {:?}", quantity_pair_text(&d))
         } else if f == ns + 10 + self.name_lens {
             format!("long run #{}: {}", d[0], long_run_text(d[0]).1)
         } else {
@@ -735,8 +742,12 @@ impl Space for C13 {
             }
             return out;
         }
-        if f >= ns + 9 && f <= ns + 10 + self.name_lens {
-            let (text, probes): (String, Vec<String>) = if f < ns + 9 + self.name_lens {
+        if f >= ns + 9 && f <= ns + 11 + self.name_lens {
+            let (text, probes): (String, Vec<String>) = if f == ns + 11 + self.name_lens {
+                let mut pr: Vec<String> = QNAMES.iter().map(|s| s.to_string()).collect();
+                pr.extend(["b", "bb", "ka", "area of q"].iter().map(|s| s.to_string()));
+                (quantity_pair_text(&d), pr)
+            } else if f < ns + 9 + self.name_lens {
                 (name_soup_text(d[0], (f - ns - 8) as u64), NAME_PROBES.iter().map(|s| s.to_string()).collect())
             } else if f == ns + 9 + self.name_lens {
                 let mut pr: Vec<String> = ALIAS_NAMES.iter().chain(ALIAS_TARGETS.iter()).map(|s| s.to_string()).collect();
@@ -750,7 +761,7 @@ impl Space for C13 {
             ctx.use_humanize = false;
             let (res, printed) = capture_stdout(|| ctx.load_definitions(&text));
             let reported = res.is_err() || !printed.trim().is_empty();
-            let fam = if f < ns + 9 + self.name_lens { "name soup" } else if f == ns + 9 + self.name_lens { "alias graph" } else { "long run" };
+            let fam = if f < ns + 9 + self.name_lens { "name soup" } else if f == ns + 9 + self.name_lens { "alias graph" } else if f == ns + 10 + self.name_lens { "long run" } else { "quantity pair" };
             let mut out = CaseOut::ok(&format!("{}: {}", fam, if reported { "reported" } else { "accepted" })).key(hash64(&text));
             // every name, alone and in the other query forms, and through the lookup API
             let mut qs: Vec<String> = vec![];
@@ -864,6 +875,10 @@ fn name_soup_text(mut k: u64, len: u64) -> String {
     }
     s.push('\n');
     s
+}
+
+fn quantity_pair_text(d: &[u64]) -> String {
+    format!("b !\nk- 1000\na 3 b^2\n{} ? {}\n{} ? {}\n", QNAMES[d[0] as usize], QDIMS[d[1] as usize], QNAMES[d[2] as usize], QDIMS[d[3] as usize])
 }
 
 fn alias_graph_text(mut k: u64) -> String {
